@@ -560,7 +560,7 @@ func (h *c02Fetch) repush(kind int, b []byte, c c02Case, m manifest.Manifest, d 
 		}
 	}
 	other := "sha512"
-	if d.Digest.Algorithm().String() == "sha512" {
+	if d.Digest.Algorithm().String() != "sha256" {
 		other = "sha256"
 	}
 	for _, how := range []string{"tag", "digest", "other-algorithm-digest"} {
@@ -583,7 +583,7 @@ func (h *c02Fetch) repush(kind int, b []byte, c c02Case, m manifest.Manifest, d 
 		// every manifest file the push created that is named by the manifest's digest (of either
 		// algorithm) must hold the original bytes, and at least one such file must exist
 		found := 0
-		for _, alg := range []string{"sha256", "sha512"} {
+		for _, alg := range []string{"sha256", "sha384", "sha512"} {
 			hx, _ := hashHex(alg, target)
 			fb, err := os.ReadFile(filepath.Join(h.pushDir, "blobs", alg, hx))
 			if err != nil {
